@@ -180,6 +180,44 @@ pub fn replay_kept(case: &Value, _run: &Run) -> Acc {
     acc
 }
 
+/// both arguments relative to the child under test (`f(@.x, @.y)`, `f(@['x'], @.y)`, negated), over the full product
+fn relative_pairs_part(thorough: bool) -> Acc {
+    let ls = lists(thorough);
+    let xs = xs();
+    let fns: [(&str, bool); 5] = [("in", true), ("nin", true), ("any_of", false), ("none_of", false), ("subset_of", false)];
+    fns.par_iter()
+        .map(|(f, scalar_first)| {
+            let mut acc = Acc::new();
+            let firsts: &Vec<Option<Value>> = if *scalar_first { &xs } else { &ls };
+            // thorough has 400+ lists: pair every first argument with a stride of the second arguments
+            let stride = if ls.len() > 60 { 7 } else { 1 };
+            let mut cells = vec![];
+            let mut expect = vec![];
+            let mut what = vec![];
+            for a in firsts.iter() {
+                for b in ls.iter().step_by(stride) {
+                    let mut m = Map::new();
+                    if let Some(a) = a {
+                        m.insert("x".into(), a.clone());
+                    }
+                    if let Some(b) = b {
+                        m.insert("y".into(), b.clone());
+                    }
+                    cells.push(Value::Object(m));
+                    expect.push(oracle(f, a, b));
+                    what.push(format!("{}({}, {})", f, a.clone().map(|v| v.to_string()).unwrap_or("<missing>".into()), b.clone().map(|v| v.to_string()).unwrap_or("<missing>".into())));
+                }
+            }
+            let doc = json!({ "elems": cells });
+            for (q, neg) in [(format!("$.elems[?{}(@.x,@.y)]", f), false), (format!("$.elems[?{}(@['x'], @[\"y\"])]", f), false), (format!("$.elems[?!{}(@.x,@.y)]", f), true)] {
+                let e: Vec<bool> = expect.iter().map(|x| *x != neg).collect();
+                judge(&mut acc, &q, &doc, &e, "both arguments relative to the child under test", &|i| format!("{} must be {}", what[i], expect[i]));
+            }
+            acc
+        })
+        .reduce(Acc::new, Acc::merge)
+}
+
 /// number literals in every spelling as the first argument of in / nin, against lists that hold the same number in the
 /// same representation (float literal vs float element, integer literal vs integer element) or other numbers; cells
 /// in which an element equals the literal mathematically but not in representation are left out (see assumptions)
@@ -326,7 +364,7 @@ pub fn run(tier: &str) -> i32 {
         }
         acc
     };
-    let acc = acc.merge(long_acc).merge(aliased_part(th)).merge(literal_spellings_part());
+    let acc = acc.merge(long_acc).merge(aliased_part(th)).merge(literal_spellings_part()).merge(relative_pairs_part(th));
     run.finish(
         acc,
         "one case = one (function, first argument, second argument, argument form); all first arguments are packed into one document per second argument; aliased arguments: both arguments from the document, as one node (`f(@.x,@.x)`, `f(@,@)`) and through an absolute path to a member of child k for every k; oracle = set membership as the property states it (false for a missing or non-array argument); non-trivial = the test is true",
